@@ -805,7 +805,8 @@ Lemma c20_load_refuted_fx : forall (T : Type) (H : Num T),
   KnownGap (doc_fx_empty (T:=T)) /\ from_json_model (doc_fx_empty (T:=T)) = Panic.
 Proof.
   intros T H. split; [|vm_compute; reflexivity].
-  right. left. eexists _, _, _. split; [reflexivity|]. split; vm_compute; reflexivity.
+  right. left. exists (JObj [(KStr k_fx_rates, JArr []); (KStr k_currencies, JArr [])]), [], (mkJFxData [] []).
+  split; [reflexivity|]. split; vm_compute; reflexivity.
 Qed.
 Lemma c20_load_refuted_shape : forall (T : Type) (H : Num T),
   KnownGap (doc_dual_short (T:=T)) /\
